@@ -3,6 +3,8 @@ mod c03;
 mod c04;
 mod c05;
 mod c06;
+mod c07;
+mod c08;
 mod cmp;
 mod obs;
 
@@ -19,6 +21,8 @@ fn main() {
         "c04" => c04::run(tier),
         "c05" => c05::run(tier),
         "c06" => c06::run(tier),
+        "c07" => c07::run(tier),
+        "c08" => c08::run(tier),
         _ => {
             eprintln!("usage: vparse <c01|...> [--tier quick|thorough]");
             2
